@@ -373,11 +373,9 @@ impl CommandAnalyzer {
                 .strip_prefix("Result<")
                 .and_then(|s| s.strip_suffix(">"))
             {
-                if let Some(comma_pos) = inner.find(',') {
-                    let ok_type = inner[..comma_pos].trim();
-                    let err_type = inner[comma_pos + 1..].trim();
-                    self.extract_type_names_recursive(ok_type, type_names);
-                    self.extract_type_names_recursive(err_type, type_names);
+                // Result<T, E> or the one-argument alias form Result<T>
+                for part in Self::split_top_level(inner) {
+                    self.extract_type_names_recursive(part, type_names);
                 }
             }
             return;
@@ -416,11 +414,8 @@ impl CommandAnalyzer {
                 .strip_prefix(prefix)
                 .and_then(|s| s.strip_suffix(">"))
             {
-                if let Some(comma_pos) = inner.find(',') {
-                    let key_type = inner[..comma_pos].trim();
-                    let value_type = inner[comma_pos + 1..].trim();
-                    self.extract_type_names_recursive(key_type, type_names);
-                    self.extract_type_names_recursive(value_type, type_names);
+                for part in Self::split_top_level(inner) {
+                    self.extract_type_names_recursive(part, type_names);
                 }
             }
             return;
@@ -445,8 +440,8 @@ impl CommandAnalyzer {
         // Handle tuple types like (T, U, V)
         if rust_type.starts_with('(') && rust_type.ends_with(')') && rust_type != "()" {
             let inner = &rust_type[1..rust_type.len() - 1];
-            for part in inner.split(',') {
-                self.extract_type_names_recursive(part.trim(), type_names);
+            for part in Self::split_top_level(inner) {
+                self.extract_type_names_recursive(part, type_names);
             }
             return;
         }
@@ -468,6 +463,29 @@ impl CommandAnalyzer {
         {
             type_names.insert(rust_type.to_string());
         }
+    }
+
+    /// Split a generic argument list or tuple body at the commas that are not nested
+    /// inside `<..>`, `(..)` or `[..]`
+    fn split_top_level(inner: &str) -> Vec<&str> {
+        let mut parts = Vec::new();
+        let mut depth = 0i32;
+        let mut start = 0;
+
+        for (i, ch) in inner.char_indices() {
+            match ch {
+                '<' | '(' | '[' => depth += 1,
+                '>' | ')' | ']' => depth -= 1,
+                ',' if depth == 0 => {
+                    parts.push(inner[start..i].trim());
+                    start = i + 1;
+                }
+                _ => {}
+            }
+        }
+        parts.push(inner[start..].trim());
+
+        parts
     }
 
     /// Get discovered structs
